@@ -67,6 +67,20 @@ def run(rep, tier, seed, replay):
                     reqs.append(r)
                     meta.append({"schema": cs["sid"], "idl_type": cs["ty"], "proto": proto, "mode": mode, "fault": kind, "detail": detail,
                                  "def": "union" if cs["isunion"] else "struct", "has_list": bool(haslist[cs["sid"]].get(cs["ty"]))})
+    # protobuf generated messages: truncations and bit flips of canonical encodings
+    import pbcheck
+    pfinds, pcov, pcases, pss, punits, sp = pbcheck.analyse(tier, seed)
+    pcanon = [cs for cs in pcases if cs["kind"] == "canon" and cs["how"] == "v1" and len(cs["in"]) <= 500]
+    for cs in pcanon:
+        path = gen.find_type(punits, cs["sid"], cs["ty"])
+        fl = list(faults.faults(cs["in"], [], "pb", rnd, 12 if tier == "quick" else 64))
+        trunc = [f for f in fl if f[0] == "truncate"]
+        if tier == "quick" and len(trunc) > 40:
+            trunc = rnd.sample(trunc, 40)
+        for kind, detail, data in trunc + [f for f in fl if f[0] != "truncate"]:
+            reqs.append({"id": len(reqs), "ty": path, "op": "decode", "input": data, "measure_leak": True, "alloc_limit": (1 << 20) + 1024 * len(data)})
+            meta.append({"schema": cs["sid"], "idl_type": cs["ty"], "proto": "protobuf", "mode": "sync", "fault": kind, "detail": detail,
+                         "def": "message", "has_list": False})
     out = gen.run_worker(reqs, tag="c19")
     failed = leaks = 0
     for i, m in enumerate(meta):
@@ -82,7 +96,7 @@ def run(rep, tier, seed, replay):
         # warm-up run first; a leak is a positive delta on BOTH later repetitions
         if len(d) == 3 and d[1] > 0 and d[2] > 0:
             leaks += 1
-            rep.violation({"check": "leak", "site": "generated", "proto": m["proto"], "mode": m["mode"], "def": m["def"], "has_list": m["has_list"]},
+            rep.violation({"check": "leak", "site": "generated" if m["proto"] != "protobuf" else "generated-protobuf", "proto": m["proto"], "mode": m["mode"], "def": m["def"], "has_list": m["has_list"]},
                           {"schema": m["schema"], "type": m["idl_type"], "proto": m["proto"], "mode": m["mode"], "fault": [m["fault"], m["detail"]],
                            "input": reqs[i]["input"], "live_byte_deltas_after_warmup": d[1:]})
     rep.cov = {
@@ -94,5 +108,5 @@ def run(rep, tier, seed, replay):
         "failed_decodes_measured": failed, "leaking": leaks, "generated_types_faulted": len(take), "exhaustive": False,
     }
     rep.assumptions = ["the measured window contains only the decode call and the drop of its result (the harness allocates nothing inside it)",
-                       "protobuf generated types join when the protobuf corpus exists"]
+                       "Thrift (binary, compact; sync, async) and protobuf generated types"]
     return "fault_enumeration"
